@@ -1,5 +1,8 @@
-(** * Iterators of LV.Model.FeldmanIter in the step relation [SR]: path-order arithmetic ([ahead]), intro rules, and the
-      programs that leave the ghost value alone (Guard::protect, the traverse / unlink fall-back and do_erase_at). *)
+(** * Iterators of LV.Model.FeldmanIter in the step relation [SR]: path-order arithmetic ([ahead]), intro rules,
+      Guard::protect (ghost value unchanged), and do_erase_at with its unlink fall-back: the successful CAS is the ghost
+      transition [TR_erase] (it clears the unflagged slot that holds the iterator's element), a load that finds another
+      unflagged value on the hash path of the element is [TR_gone] (the element is nowhere in the tree,
+      FeldmanIterThm.erase_at_false_gone); result true <-> one removal, result false -> seen gone ([Qe]). *)
 From Coq Require Import ZArith NArith List Bool Arith PeanoNat Lia String.
 From LV Require Import Base.Conc Base.Events Model.Feldman Model.FeldmanIter.
 From LV Require Import Proofs.FeldmanStepInv Proofs.FeldmanStepThm Proofs.ConcRel Proofs.FeldmanIterTraceDefs Proofs.FeldmanIterReachOps.
@@ -321,8 +324,9 @@ Section Base.
              split; [repeat split; auto|]. split; [reflexivity|]. cbn. intros X; congruence.
           -- exists A, (set_gone w). split; [exact HI|]. split; [apply frame_refl|]. split.
              { apply TR_gone; [apply all_acc1|discriminate|exact Ha'|reflexivity| |reflexivity].
-               rewrite Hc. eapply gone_evidence with (t := t) (l := l) (a := parr p) (kx := kx); eauto.
-               unfold under; cbn [fst snd]. symmetry. exact P3. }
+               rewrite Hc. apply (@gone_evidence g A tr t l (parr p) (ko l) (kpre l) (pidx p) x kx c HI); auto.
+               all: try (symmetry; exact P5).
+               all: unfold under; cbn [fst snd]; symmetry; exact P3. }
              unfold view. rewrite Hv.
              cbn [ConcRel.safeR]. split; [apply kinc_refl|]. split; [apply wk_gone|]. split; [reflexivity|].
              split; [repeat split; auto|]. split; [reflexivity|]. intros _. reflexivity.
@@ -373,7 +377,7 @@ Section Base.
           split; [apply kinc_refl|]. split; [apply wk_rem|reflexivity].
         * intros c Hok. rewrite Hok. apply IH; auto.
       + apply FALSE. intros Ex. apply andb_false_iff in Eand. destruct Eand as [E|E].
-        * apply N.eqb_neq in E. apply E. f_equal. apply (KP v' eq_refl); [rewrite Es; congruence|congruence].
+        * apply N.eqb_neq in E. apply E. f_equal. rewrite <- Hkk1. apply (KP v' eq_refl); [rewrite Es; congruence|congruence].
         * apply Nat.eqb_neq in E. auto.
   Qed.
 
@@ -394,7 +398,7 @@ Section Base.
     intros Hx Hu Hi. induction fuel as [|fuel IH]; intros l w Hin Hk Hkk Hph Hc Ha'; cbn [erase_at_loop].
     - split; [apply kinc_refl|]. split; [apply wk_refl|exact I].
     - apply safeR_same; [reflexivity|]. intros g A tr HI Hv. cbn [a_ld fst snd vslot].
-      assert (Hp : pfx A a = Some (o, pre0)). { unfold view in Hv. subst l. eapply (i_stk HI); exact Hin. }
+      assert (Hp : pfx A a = Some (o, pre0)). { eapply (i_stk HI). unfold view in Hv. rewrite Hv. exact Hin. }
       assert (TRs : TR g g tr [EvAcc KLd (obj_slot a i) true] w w) by (apply TR_acc_same; apply all_acc1).
       destruct (arr g a i) as [c b] eqn:Hs. cbn [sbits sptr].
       destruct (Nat.eqb_spec b 0) as [->|Hb0].
@@ -402,13 +406,13 @@ Section Base.
         * exists A, w. split; [exact HI|]. split; [apply frame_refl|]. split; [exact TRs|]. rewrite Hv.
           unfold a_gld. apply safeR_nop. rewrite Nat.eqb_refl.
           apply safeR_cas_x; auto.
-          -- intros g2 A2 tr2 HI2 Hv2. exists o, pre0. unfold view in Hv2. subst l. eapply (i_stk HI2); exact Hin.
+          -- intros g2 A2 tr2 HI2 Hv2. exists o, pre0. eapply (i_stk HI2). unfold view in Hv2. rewrite Hv2. exact Hin.
           -- intros c Hok. rewrite Hok. apply safeR_retire. apply safeR_cnt.
              split; [apply kinc_refl|]. split; [apply wk_rem|reflexivity].
           -- intros c Hok. rewrite Hok. apply IH; auto.
         * exists A, (set_gone w). split; [exact HI|]. split; [apply frame_refl|]. split.
           { apply TR_gone; [apply all_acc1|discriminate|exact Ha'|reflexivity| |reflexivity].
-            rewrite Hc. eapply gone_evidence with (t := t) (l := l) (a := a) (kx := kx); eauto. }
+            rewrite Hc. apply (@gone_evidence g A tr t l a o pre0 i x kx c HI); auto. }
           rewrite Hv. unfold a_gld. apply safeR_nop.
           destruct (Nat.eqb_spec c x) as [E|_]; [congruence|].
           split; [apply kinc_refl|]. split; [apply wk_gone|]. split; reflexivity.
@@ -421,8 +425,9 @@ Section Base.
         unfold a_gld. apply safeR_nop. apply ConcRel.safeR_bind.
         eapply ConcRel.safeR_weaken; [|apply safeR_unlink_loop with (x := x) (kx := kx) (l := l1); auto].
         * intros [[b0 y]|] l2 w2 (K1 & Wk1 & K2).
-          -- unfold a_gst. apply safeR_nop. split; [eapply kinc_trans; eauto|]. split; [exact Wk1|]. destruct b0; exact K2.
-          -- split; [eapply kinc_trans; eauto|]. split; [exact Wk1|exact I].
+          -- unfold a_gst. apply safeR_nop. cbn [ConcRel.safeR]. unfold Qe.
+             split; [exact (kinc_trans Kl K1)|]. split; [exact Wk1|]. destruct b0; exact K2.
+          -- cbn [ConcRel.safeR]. unfold Qe. split; [exact (kinc_trans Kl K1)|]. split; [exact Wk1|exact I].
         * apply FeldmanStepRel.start_posP. exact Hph.
   Qed.
 End Base.
